@@ -3,6 +3,7 @@ lower/upper median and the adapted bandwidth (`Xrfmv.Median` at `Float`); plus t
 import Xrfmv.Drv.Common
 import Xrfmv.Drv.C05
 import Xrfmv.Model.Median
+import Xrfmv.Model.AgopStep
 
 open Lean Xrfmv.Drv
 
@@ -32,6 +33,23 @@ def opMedianBandwidth : Handler := fun j => do
       (if wantDists then [("dists", fsJson ds.toArray)] else []))
   | _, _, _ => throw "bad-op: fewer than two centers (median of an empty tensor)"
 
-def ops : List (String × Handler) := [("median_bandwidth", opMedianBandwidth)] ++ C05.ops
+/-- `{"op":"agopstep", kind, q, p?, L, "grad_eps", "jitter", transform, "x": centers (n × d), "alpha": coefficients (n × f)}`
+→ `"M"`: the max-normalised AGOP of the predictor over its own centers (`Model/AgopStep.lean`, what `RFM.fit_M` stores
+as `M` below the sub-sampling limit, `center_grads=False`). -/
+def opAgopStep : Handler := fun j => do
+  let K ← C05.getSpec j
+  if !K.accepted then throw "bad-op: parameters rejected by the constructor (AssertionError)"
+  let xs := C05.rows (← getFss j "x")
+  let d := (xs.head?.map List.length).getD 0
+  if !C05.rect d xs then throw "bad-op: rows of x must have one common length"
+  let A := C05.rows (← getFss j "alpha")
+  if A.length != xs.length then throw "bad-op: one coefficient row per center"
+  let T ← C05.getTransform j d
+  let ge ← getF j "grad_eps"
+  let jit ← getF j "jitter"
+  let M := Xrfmv.AgopStep.normAgop ge jit K T xs A
+  pure <| Json.mkObj [("M", fssJson (C05.toArr M))]
+
+def ops : List (String × Handler) := [("median_bandwidth", opMedianBandwidth), ("agopstep", opAgopStep)] ++ C05.ops
 
 end Xrfmv.Drv.C19
